@@ -5,7 +5,7 @@ seeded change of the property) into seeded/<id>-<n>/verification.json, so that t
 import json, glob, os, re
 n = 0
 for f in glob.glob('/verif/evidence/.selftest/C*.json'):
-    j = json.load(open(f))
+    j = json.load(open(f, errors='replace'))
     for m in j.get('mutants', []):
         name = m.get('mutant', '')
         mm = re.match(r'seeded[:/](C\d+-\d+)', name)
